@@ -16,6 +16,7 @@ MANIFEST = {
     'note': 'Trusted: numpy, pandas (tables). A selection matching no cycle has no chains: raising or returning an empty subset are both accepted provided the metric store stays coherent and the next selection is exact. Known finding K1 (augmented segment: slice cache vs label lookup use different definitions when the previous cycle is not monotone through 1.5pi / has no trough sample) is recognised by computing both definitions in the model.',
     'technique': 'history exploration with an executable reference model run in lock-step with the real container (cache on and off)',
 }
+LOGGER_ON_ODD_SHARDS = True
 BUDGET_S = {'quick': 70, 'thorough': 420}
 NCASES = {'quick': 4000, 'thorough': 40000}
 RULE = ('seeded random histories (length 3..12) over the operation alphabet, on containers built from synthetic phases '
@@ -158,6 +159,11 @@ def gen_history(rng, ref):
 
     def fresh(prefix):
         counter[0] += 1
+        if rng.random() < .06:
+            # the metric store is open: a user metric may be stored under the name of a timing metric
+            cand = [n for n in ('duration', 'start_sample', 'stop_sample') if n not in in_use]
+            if cand:
+                return gens.pick(rng, cand)
         if len(names) > 1 and rng.random() < .1:
             # (never a metric that the active selection's conditions refer to: the library re-evaluates
             #  stored conditions for subset tables, and which of the two readings is meant is not the property's business)
@@ -241,6 +247,16 @@ def gen_history(rng, ref):
                 shadow[name] = v2
                 if name not in names:
                     names.append(name)
+        elif r < .40 and len(names) > 1:
+            src = gens.pick(rng, [n for n in names if n != 'is_good'] or names)
+            name = 'x%d' % (len(h) + 1)
+            h.append({'op': 'add_alias', 'name': name, 'source': src})
+            v2 = np.array(shadow[src], dtype=float)
+            v2[np.isnan(v2)] = -1
+            shadow[name] = np.trunc(v2)
+            names.append(name)
+        elif r < .46 and (in_use & {'start_sample', 'stop_sample', 'duration'}):
+            h.append({'op': 'table_all'})    # recomputing the timings would overwrite a metric the active selection refers to
         elif r < .46:
             h.append({'op': 'timings'})
             for k, v in (('start_sample', [s for s, e in ref.segs]), ('stop_sample', [e - 1 for s, e in ref.segs]), ('duration', [e - s for s, e in ref.segs])):
@@ -348,6 +364,17 @@ def run_history(ctx, phase, hist, case):
                 expect = 'ok-or-raise'
         elif kind == 'timings':
             ref.timings()
+            for nme in ('start_sample', 'stop_sample', 'duration'):
+                aug_metrics.pop(nme, None)
+        elif kind == 'add_alias':
+            # an integer-coded copy of a metric that is already stored, made from the stored array object itself
+            if op['source'] in ref.metrics:
+                v = np.array(ref.metrics[op['source']], dtype=float)
+                v[np.isnan(v)] = -1
+                ref.metrics[op['name']] = v.astype(int)
+                ctx.count('alias_adds')
+            else:
+                expect = 'raise'
         elif kind in ('pick', 'match', 'table_conditions') and any(c[0] not in ref.metrics and c[0] not in aug_metrics for c in op['conds']):
             expect = 'raise'      # a condition names a metric that was never computed (KeyError in any implementation)
             ctx.count('conditions_on_missing_metric')
@@ -398,6 +425,8 @@ def run_history(ctx, phase, hist, case):
                         out = cy.add_cycle_metric(op['name'], op['vals'].copy(), dtype=(int if op['dtype'] == 'int' else None))
                     elif kind == 'timings':
                         out = cy.compute_cycle_timings()
+                    elif kind == 'add_alias':
+                        out = cy.add_cycle_metric(op['name'], cy.metrics[op['source']], dtype=int)
                     elif kind == 'pick':
                         out = cy.pick_cycle_subset([cond_str(c) for c in op['conds']])
                     elif kind == 'chain_timings':
@@ -582,7 +611,7 @@ def run_shard(ctx):
 def finalize(agg, tier):
     c = agg['counters']
     r = []
-    for k in ['compute', 'add', 'timings', 'pick', 'chain_timings', 'chain_metric', 'match', 'table_all', 'table_subset', 'table_conditions']:
+    for k in ['compute', 'add', 'add_alias', 'timings', 'pick', 'chain_timings', 'chain_metric', 'match', 'table_all', 'table_subset', 'table_conditions']:
         if c.get('op:' + k, 0) < 100:
             r.append('operation %s executed %d times (need >= 100)' % (k, c.get('op:' + k, 0)))
     for k in OPS:
